@@ -91,6 +91,16 @@ func (c C11Config) definition(h *server.VHist, id string) map[string]interface{}
 			par = -2
 		}
 		def["transform"] = map[string]interface{}{"Type": "JavascriptTransform", "Parallelism": par, "Code": base64.StdEncoding.EncodeToString([]byte(`function transform_entities(entities) { return entities; }`))}
+	case "js-bindings-odd-arguments":
+		// the documented bindings called with shapes a script can produce by accident
+		def["transform"] = map[string]interface{}{"Type": "JavascriptTransform", "Code": base64.StdEncoding.EncodeToString([]byte(`function transform_entities(entities) {
+  for (e of entities) {
+    AsEntity({id: "x", props: {}, refs: null}); AsEntity({id: "x", props: null, refs: {}}); AsEntity({id: 7}); AsEntity(null); AsEntity("s");
+    GetId(null); SetId(e, GetId(e)); ToString(null); ToString(undefined); GetProperty(e, "http://x/", "nope"); GetReference(e, "http://x/", "nope");
+    AssertNamespacePrefix("http://odd.example/"); GetNamespacePrefix("http://never.seen/");
+    FindById("http://never.seen/e"); Query([], "*", false, []); Query(["http://never.seen/e"], "http://never.seen/p", true, ["no-such-dataset"]);
+  }
+  return entities; }`))}
 	case "js-throws":
 		def["transform"] = map[string]interface{}{"Type": "JavascriptTransform", "Code": base64.StdEncoding.EncodeToString([]byte(`function transform_entities(entities) { throw "boom"; }`))}
 	}
@@ -100,7 +110,7 @@ func (c C11Config) definition(h *server.VHist, id string) map[string]interface{}
 func c11Configs() []C11Config {
 	var out []C11Config
 	for _, s := range []string{"dataset", "dataset-latest", "union", "multi", "sample"} {
-		for _, t := range []string{"none", "js-identity", "js-throws", "js-drop-all", "js-no-code", "js-parallelism-0", "js-parallelism-negative"} {
+		for _, t := range []string{"none", "js-identity", "js-throws", "js-drop-all", "js-no-code", "js-parallelism-0", "js-parallelism-negative", "js-bindings-odd-arguments"} {
 			for _, k := range []string{"dataset", "devnull", "console", "failing", "missing-dataset"} {
 				for _, tr := range []string{"cron", "onchange"} {
 					for _, jt := range []string{"incremental", "fullsync"} {
@@ -248,7 +258,15 @@ func c11RunOnce(cfg C11Config, reenter int) (out c11Out, digest string) {
 		fail("no-run-result", "the run ended but no run result was stored for the job")
 	}
 	if rec != nil {
-		digest = fmt.Sprintf("sinkCalls=%d outcome=%s delivered=%v", rec.calls, out.Outcome, rec.delivered)
+		// ids without their namespace prefix: the prefix a sample source gets depends on what the shared world has seen
+		var del []string
+		for _, id := range rec.delivered {
+			if i := strings.Index(id, ":"); i >= 0 {
+				id = id[i+1:]
+			}
+			del = append(del, id)
+		}
+		digest = fmt.Sprintf("sinkCalls=%d outcome=%s delivered=%v", rec.calls, out.Outcome, del)
 	}
 	// re-run timers are real timers in this enumeration: their delay is a day, so none fires while the worker lives
 	// (a re-run firing during a later configuration would disturb its ticket accounting); re-runs are C17's subject
@@ -272,7 +290,7 @@ func init() {
 	})
 
 	engine.RegisterCheck("C11", func(r *engine.Run) {
-		r.Rule = "ENUM: the full cross product of 5 sources x 7 transforms x 5 sinks x 2 trigger types x 2 job types x 5 error-handler settings (3500 definitions) is offered to the real Scheduler.AddJob; every accepted definition is triggered the way its trigger does (cron: jobrunner-wrapped Run; onchange: Run as the event callback calls it) in a worker process; oracle: no panic leaves Run, the process survives, the run slot and ticket are released, a run result is stored; differential: the same definition with a recording sink, undisturbed and with a second request for the same job arriving during each of the sink's calls (up to the 6th), must give the same outcome, sink calls and deliveries (the refused request is a no-op). SCHED: concurrent run requests on overlapping ids (see parts). distinct = distinct (accept/outcome) digests"
+		r.Rule = "ENUM: the full cross product of 5 sources x 8 transforms x 5 sinks x 2 trigger types x 2 job types x 5 error-handler settings (4000 definitions) is offered to the real Scheduler.AddJob; every accepted definition is triggered the way its trigger does (cron: jobrunner-wrapped Run; onchange: Run as the event callback calls it) in a worker process; oracle: no panic leaves Run, the process survives, the run slot and ticket are released, a run result is stored; differential: the same definition with a recording sink, undisturbed and with a second request for the same job arriving during each of the sink's calls (up to the 6th), must give the same outcome, sink calls and deliveries (the refused request is a no-op). SCHED: concurrent run requests on overlapping ids (see parts). distinct = distinct (accept/outcome) digests"
 		r.Assumptions = []string{"a panic leaving job.Run terminates the hub (jobrunner re-panics in the cron goroutine; on-change jobs run in a bare goroutine)", "HTTP-typed sources/sinks/transforms are exercised against a second hub behind a loopback listener (part http-peer), not in the cross product"}
 		cfgs := c11Configs()
 		start := time.Now()
